@@ -348,6 +348,8 @@ extern "C" {
 # define BFLAG_STOP_BEAST        (1 << 2)
 # define BFLAG_KEEP_PEER_CERTS    (1 << 3) /* Keep peer cert chain. */
 # define BFLAG_KEEP_PEER_CERT_DER (1 << 4) /* Keep raw DER of peer certs. */
+# define BFLAG_SESSION_TABLE_REF (1 << 5) /* Holds a reference to the session
+                                            table entry named by sessionId. */
 
 
 /*
